@@ -65,6 +65,8 @@ def run(ctx, w):
     # the named invariant A5 (ordered, in-range margins) is itself discharged: DECSTBM validity and the reset of the margins on a height change
     from rules import c05, prims
     c05.margin_rules(ctx, w, S, R)
+    # ... and the positions / margins the primitives are handed stay in range: every handler preserves the state invariant
+    shared.invariant_rule(ctx, w, S, R, "R16")
     # the slice / index operations of the row, scroll and edit primitives cannot panic for any position with col <= cols, row < rows and any count
     prims.row_primitives(ctx, w, S, "R11", spec=False)
     prims.scroll_primitives(ctx, w, S, "R12", spec=False)
